@@ -20,11 +20,11 @@ class FaultSync(Suite):
         n = {"quick": 1000, "thorough": 12000, "search": 150}[tier]
         ops = []
         while len(ops) < n:
-            wide = rng.random() < 0.1
+            wide = rng.random() < 0.12
             if wide:
                 # wide views: more entries than all the internal queues together can hold (2 x 128 + in-flight), so that a fault
                 # finds producers blocked on full queues
-                tree = flat_view(rng, rng.choice([140, 200, 400, 600]), (0, 10, 100, 3000))
+                tree = flat_view(rng, rng.choice([140, 200, 400, 400, 600, 600]), (0, 10, 100, 3000))
             else:
                 tree = gen.disk_tree(rng, rng.choice([5, 12, 30]), 3, types=("dir", "file", "file", "symlink", "hardlink", "fifo"),
                                      file_sizes=(0, 5, 100, 32768, 40000, 70000), xattrs=False)
@@ -41,6 +41,9 @@ class FaultSync(Suite):
                     # a destination wider than the walker's channel, and a fault that stops the comparison while the walk of the
                     # destination is still running
                     kind = rng.choice(["cancel", "recvR", "sendR", "kill", "hasher", "notify"])
+                if wide and len(tree) >= 400 and rng.random() < 0.35:
+                    # the comparison dies right at the start while hundreds of announced entries are still queued in front of it
+                    kind = rng.choice(["hasher", "notify", "cancel"])
                 f = {"kind": kind}
                 if wide and kind in ("cancel", "hasher", "notify", "recvR", "sendR") and rng.random() < 0.6:
                     f["at"] = rng.randint(1, 8)      # early fault: the whole backlog is still queued
